@@ -63,7 +63,9 @@ def run(R):
     from dreye.api.optimize.lsq_linear import lsq_linear_adaptive
     nsys = 24 if R.tier == "quick" else 200
     R.rule = ("systems 2-4 receptors x 2-6 sources with finite bounds (lb zero / mixed / positive), K none/scalar/vector, baseline; "
-              "target sets of 1-%d samples from well inside to far outside the gamut, including sets that are only marginally outside (an extreme "
+              "target sets of 1-%d samples from well inside to far outside the gamut, including targets of mixed sign (a negative component, positive "
+              "total = plain sum of the entries: an in-gamut capture moved away from the neutral direction at constant total until a component "
+              "is negative, or its smallest component replaced by a negative value) and sets that are only marginally outside (an extreme "
               "point of the gamut - all sources at ub or at lb - moved outwards, in total or in offset, by a relative 2^-19..2^-16, so the "
               "optimal scales differ from 1 by a few ppm; deltas 1e-6/1e-5 there); default and explicit (non-unit-sum) neutral "
               "points; objectives 'unity' and 'max'; scale weights; deltas 1e-6..1e-3; solver passed through the keyword "
@@ -95,7 +97,8 @@ def run(R):
         nu = np.ones(nf) if nuk == "default" else dyadic(rng, 0.5, 3, 1, size=nf)
         # a marginally-outside set needs room to rescale the in-gamut members by a few ppm: full row rank, or no baseline
         marg_ok = (ns >= nf) or bool(np.all(bp == 0))
-        mode = str(rng.choice(["inside", "mixed", "outside"] + ["marginal"] * marg_ok)) if easy else str(rng.choice(["inside", "mixed"] + ["marginal"] * marg_ok))
+        mode = (str(rng.choice(["inside", "mixed", "outside", "signed"] + ["marginal"] * marg_ok)) if easy
+                else str(rng.choice(["inside", "mixed", "signed"] + ["marginal"] * marg_ok)))
         X0 = lb + dyadic(rng, 0.125, 0.875, 3, size=(size, ns)) * (ub - lb)
         B = X0 @ Ap.T + bp
         marg = None
@@ -124,13 +127,44 @@ def run(R):
                     # make a source needed below its lower bound sometimes
                     if rng.integers(3) == 0 and easy:
                         B[i] = bp + (B[i] - bp) * 0.05
+        signed = None
+        if mode == "signed":
+            # targets of mixed sign (e.g. derived from contrasts): a negative component, total (= plain sum of the entries) still positive.
+            #  radial:    an in-gamut capture moved away from the neutral direction, total unchanged, by a factor g > 1 until one
+            #             component is negative; the pair (1, 1/g) is feasible by construction
+            #  component: the smallest component of an in-gamut capture replaced by a negative value (feasibility not guaranteed:
+            #             the neutral direction need not meet the gamut; an empty constraint set is recognised below)
+            signed = []
+            must = int(rng.integers(size))
+            for i in range(size):
+                if i != must and rng.integers(2):
+                    continue
+                sk = str(rng.choice(["radial", "radial", "component"]))
+                b0 = B[i].copy()
+                if sk == "radial":
+                    npt = nu / nu.sum() * b0.sum(); r0 = b0 - npt
+                    cneg = int(np.argmin(r0 / npt))
+                    g0 = npt[cneg] / -r0[cneg] if r0[cneg] < 0 else np.inf
+                    if not (g0 < 24):
+                        sk = "component"    # (almost) on the neutral direction: no moderate factor makes a component negative
+                    else:
+                        g = float(g0) * (1 + float(dyadic(rng, 0.125, 1, 3)))
+                        B[i] = npt + g * r0
+                if sk == "component":
+                    cneg = int(np.argmin(b0))
+                    B[i, cneg] = -float(dyadic(rng, 0.125, 0.5, 3)) * b0[cneg]
+                if not (np.min(B[i]) < 0 < np.sum(B[i])):
+                    B[i] = b0; continue     # (degenerate: zero capture component) leave the in-gamut target
+                signed.append(dict(sample=i, kind=sk, negative_component=cneg))
+                R.count("signed:%s" % sk)
+            R.count("signed:samples_with_negative_component=%d" % len(signed))
         obj = str(rng.choice(["unity", "max"]))
         sw = np.array([1.0, 1.0]) if rng.integers(2) else dyadic(rng, 0.5, 2, 1, size=2)
         dch = [1e-6, 1e-5] if mode == "marginal" else [1e-6, 1e-5, 1e-4, 1e-3]
         d1 = float(rng.choice(dch)); dr = float(rng.choice(dch))
         via = "estimator" if si % 3 == 0 else "function"
         c = dict(k=k, nf=nf, ns=ns, size=size, A=A, K=K, K_kind=kk, baseline=base, baseline_kind=bk, lb=lb, ub=ub, lb_kind=lbk, B=B, targets=mode,
-                 neutral_kind=nuk, neutral_point=(None if nuk == "default" else nu), objective=obj, scale_w=sw, delta_norm1=d1, delta_radius=dr, via=via, marginal=marg)
+                 neutral_kind=nuk, neutral_point=(None if nuk == "default" else nu), objective=obj, scale_w=sw, delta_norm1=d1, delta_radius=dr, via=via, marginal=marg, signed=signed)
         for key in ("K_kind", "baseline_kind", "lb_kind", "targets", "neutral_kind", "objective", "via"):
             R.count("%s:%s" % (key, c[key]))
         R.count("size:%d" % size)
@@ -187,6 +221,7 @@ def run(R):
                           bounds=[(float(l), None if not np.isfinite(u) else float(u)) for l, u in zip(lbz, ubz)] + [(None, None)], method="highs")
             if res.status == 0 and res.x[-1] > 1e-9:
                 R.count("infeasible-instance:raise-is-correct")
+                R.count("infeasible-instance:targets=%s" % c["targets"])
                 continue
             R.failB(dict(c, impl_error=job["out"], feasible_point=(None if res.status != 0 else res.x[:-1])), "fit_adaptive raised %s although a feasible (X, scales) exists: %s" % (job["st"], job["out"]), sig + ":raises:" + job["st"]); continue
         Xh, sc, Bp = [np.asarray(o) for o in job["out"]]
